@@ -149,13 +149,20 @@ def run(tier, seed):
     for n in range(1, 33):
         for mode in ("generic", "equal", "alternating", "extreme"):
             for _ in range(reps):
-                one(ctx, LP, D, gen(rng, n, mode), mode)
+                ph = gen(rng, n, mode)
+                one(ctx, LP, D, ph, mode)
+                if rng.random() < 0.25:
+                    # the same vector with every sign reversed, right after (cos is even and sin odd EXACTLY in binary64: the
+                    # two elements share their identity part bit for bit and differ in the X part only)
+                    one(ctx, LP, D, [-x for x in ph], mode + "/negated-repeat")
         # all sign patterns of the interior phases for small n
         if n <= (6 if tier == "quick" else 9) and n >= 2:
             dist = float(rng.uniform(0.05, 0.4))
             e0, e1 = float(rng.uniform(-3, 3)), float(rng.uniform(-3, 3))
             for sg in itertools.product([-1, 1], repeat=n - 1):
                 one(ctx, LP, D, [e0] + [s * dist for s in sg] + [e1], "all-signs")
+            for sg in itertools.product([-1, 1], repeat=n - 1):          # ... and with the end phases reversed too: full negations
+                one(ctx, LP, D, [-e0] + [s * dist for s in sg] + [-e1], "all-signs")
     return ctx.finish(
         rule="every n = 1..32 (every shape of the halving tree) x interior patterns (generic, all-equal, alternating, extreme-valued, all sign "
              "patterns for small n) x end phases (generic or at 0, +-pi/2, pi); a case is one angseq(unitary_from_angles(phi)) round trip; "
